@@ -151,13 +151,31 @@ pub fn eval_batch(hs: &[FHist]) -> Result<Vec<CaseOut>, String> {
             out.violation = Some(format!("the {} build crashed: {}", which.0, which.1.trim()));
         } else if a[i] != b[i] {
             out.violation = Some(format!("alloc vs fixed-buffer build differ: {}", first_diff(&a[i], &b[i])));
-        } else if h.class != 2 && a[i] != c[i] {
+        } else if h.class != 2 && !raw_region_has_cased_non_ascii(h) && a[i] != c[i] {
             let which = if h.class == 3 { "a history that names every entry exactly (no case variants among its names)" } else { "names without non-ASCII case mappings" };
             out.violation = Some(format!("unicode vs no-unicode build differ on {}: {}", which, first_diff(&a[i], &c[i])));
         }
         outs.push(out);
     }
     Ok(outs)
+}
+
+/// A raw directory region may carry long names of its own. If one of them contains a non-ASCII character that has a
+/// case mapping (e.g. a sharp s, which Unicode folding equates with "SS"), lookups by ASCII names may legitimately
+/// match it in the Unicode builds only - the documented difference, whatever alphabet the history's own names use.
+fn raw_region_has_cased_non_ascii(h: &FHist) -> bool {
+    h.ops.iter().any(|o| match o {
+        FOp::RawDir(slots) => slots.iter().any(|sl| {
+            sl.len() >= 32 && sl[11] & 0x0F == 0x0F && {
+                let idx = (1..11).step_by(2).chain((14..26).step_by(2)).chain((28..32).step_by(2));
+                idx.into_iter().any(|i| {
+                    let u = sl[i] as u32 | (sl[i + 1] as u32) << 8;
+                    u >= 0x80 && char::from_u32(u).map_or(false, |c| c.to_uppercase().ne(std::iter::once(c)) || c.to_lowercase().ne(std::iter::once(c)))
+                })
+            }
+        }),
+        _ => false,
+    })
 }
 
 fn name_strategy(class: u8) -> BoxedStrategy<String> {
